@@ -662,9 +662,21 @@ def main():
             jobs.append((name, args.tier, args.seed, lo, min(total, lo + chunk)))
     import multiprocessing as mp
     nproc = min(8, os.cpu_count() or 1)
+    # exhaustive families last and interleaved, so that a wall-clock cut-off hits them evenly
+    head = [j for j in jobs if j[0] in ("data", "chains", "random")]
+    tail = [j for j in jobs if j[0] not in ("data", "chains", "random")]
+    tail.sort(key=lambda j: (j[3] / float(j[4] - j[3]), j[0]))
+    limit = 55 if args.tier == "quick" else 570
+    done = 0
     with mp.get_context("fork").Pool(nproc) as pool:
-        for r in pool.imap_unordered(run_chunk, jobs):
+        for r in pool.imap_unordered(run_chunk, head + tail):
             merge(rep, r)
+            done += 1
+            if rep.elapsed() > limit and done < len(jobs):
+                rep.skip("wall-clock budget (%d s) reached: %d of %d work chunks not evaluated" % (
+                    limit, len(jobs) - done, len(jobs)))
+                pool.terminate()
+                break
     rep.finish()
 
 
